@@ -19,7 +19,7 @@ from hvsim.core import HarnessError, BudgetExceeded, RunResult, Violation, meter
 from hvsim.simfs import SimFile, monitored
 from hvsim.world import World
 
-A_STEPS, B_STEPS = 1_000_000, 32
+A_STEPS, B_STEPS = 1_000_000, 20
 C_ALLOC, D_ALLOC = 64 << 20, 32
 INDEXED = True
 _plan_cache = {}
